@@ -12,7 +12,8 @@ package xstar
 //@   invariant sendQLen >= 0
 //@   close_token closeq when closed
 //@   lock Mutex level 20
-//@   guarded_by Mutex: closed pipes recvQLen sendQLen recvExpire recvq ttl
+//@   close_token sizeq
+//@   guarded_by Mutex: closed pipes recvQLen sendQLen recvExpire recvq sizeq ttl
 //@   immutable: closeq
 //@   never_closed: recvq
 //@   elem_invariant recvq: elem != nil && !shared(elem)
@@ -57,15 +58,16 @@ package xstar
 // ---- end generated option contracts ----
 //@
 //@ func (*pipe).receiver
-//@   before call:close#1 assert m == nil || sel("select#2") == 1 || sel("select#2") == 2
+//@   before call:close#1 assert m == nil || sel("select#2") == 2 || sel("select#2") == 3
 //@
 //@ func (*socket).OpenContext
 //@   modifies none
 //@   ensures isnil(result0) && result1 == protocol.ErrProtoOp
 // ---- generated deadline contracts (tools/gen_deadline_contracts.py) ----
 //@ func (*socket).RecvMsg
-//@   before select#1 assert s.recvExpire > 0 ==> timer_d(tq) == s.recvExpire
-//@   before select#1 assert s.recvExpire <= 0 ==> tq == nilQ
+//@   ghost exp0 = s.recvExpire at call:Unlock#1
+//@   before select#1 assert exp0 > 0 ==> timer_d(tq) == exp0
+//@   before select#1 assert exp0 <= 0 ==> tq == nilQ
 //@   ensures sel("select#1") == 1 ==> result0 == nil && result1 == protocol.ErrRecvTimeout
 //@
 // ---- end generated deadline contracts ----
@@ -157,3 +159,22 @@ package xstar
 //@ func (*socket).SendMsg
 //@   ghost wasclosed = s.closed at call:Lock#1
 //@   ensures wasclosed ==> result == protocol.ErrClosed
+
+// ---- round 11 (F22; C18 "a call that can complete at once is not failed by the deadline", C19 "an accepted
+// value takes effect"): a receive -- the application's or a pipe goroutine's -- that is waiting while the
+// read queue is replaced is woken and carries on with the new queue: both wait on the resize channel in
+// force, and an accepted ReadQLen swaps that channel out and closes it ----
+//@ func (*socket).RecvMsg
+//@   loop 1 invariant recvq == s.recvq && sizeq == s.sizeq && !held(s.Mutex)
+//@   before select#1 assert selwaits(s.sizeq)
+//@
+//@ func (*pipe).receiver
+//@   loop 3 invariant recvq == s.recvq && sizeq == s.sizeq && !closed(recvq) && !held(s.Mutex)
+//@   before select#2 assert selwaits(p.s.sizeq)
+//@
+//@ func (*socket).SetOption
+//@   before call:close#1 assert name == protocol.OptionReadQLen && sizeq != s.sizeq && s.sizeq != nil
+//@   ensures name == protocol.OptionReadQLen && isnil(result) ==> called("close")
+//@
+//@ func NewProtocol
+//@   ensures cast("*socket", result).sizeq != nil && !closed(cast("*socket", result).sizeq)
